@@ -216,6 +216,34 @@ def bodies_theorems(prefixes=None):
     return ["KaVerif.BODIES_table", "KaVerif.BODIES_numdisp_real"] + names
 
 
+def bodies_coverage(ctx):
+    """what the translator covers, for the evidence: descriptors translated / refused (Gen/Bodies.lean), how many of the
+    translated ones the hand-written table models, and which of those have no `Props/Bodies` theorem yet"""
+    import os
+    lean = os.path.join(core.VERIF, "lean", "KaVerif")
+    try:
+        gen = open(os.path.join(lean, "Gen", "Bodies.lean"), encoding="utf-8").read()
+        props = open(os.path.join(lean, "Props", "Bodies.lean"), encoding="utf-8").read()
+        ev = open(os.path.join(lean, "Model", "Eval.lean"), encoding="utf-8").read()
+    except OSError:
+        return None
+    key = re.compile(r'^  \("((?:[^"\\]|\\.)*)", ', re.M)
+
+    def block(src, head):
+        i = src.find(head)
+        return src[i: src.find("]\n\n", i)] if i >= 0 else ""
+    translated = key.findall(block(gen, "def bodiesTable"))
+    refused = key.findall(block(gen, "def untranslated"))
+    modelled = set(key.findall(block(ev, "def implTable")))
+    covered = set(re.findall(r'^  "((?:[^"\\]|\\.)*)",?$', block(props, "def Bodies.covered"), re.M))
+    out = dict(translated=len(translated), refused=len(refused), translated_and_modelled=len([d for d in translated if d in modelled]),
+               with_theorem=len([d for d in translated if d in covered]),
+               modelled_without_theorem=[d for d in translated if d in modelled and d not in covered],
+               modelled_but_refused=[d for d in refused if d in modelled])
+    ctx.cov["translated_bodies"] = out
+    return out
+
+
 def run(ctx, texts, stream_name="run", features=None, min_modelled=0.5, timeout=5.0, label=None, bodies=False):
     """texts: list of str, or of (str, feature-tag list).  Returns coverage statistics.
     `stream_name` is the driver stream (`run`); `label` names this batch in the evidence (default: the stream name).
